@@ -128,7 +128,17 @@ var propGroups = map[string][]string{
 }
 
 // extraRoots: whole-cone properties list their entry points explicitly (filled by property definitions).
-var extraRoots = map[string][]string{}
+var extraRoots = map[string][]string{
+	// C07: the entry points named by the property (stream handler, single-frame decoding,
+	// full decoding, display); everything they reach follows through the call graph.
+	"C07": {
+		"(*github.com/goblimey/go-ntrip/rtcm/handler.Handler).HandleMessages",
+		"(*github.com/goblimey/go-ntrip/rtcm/handler.Handler).GetMessage",
+		"github.com/goblimey/go-ntrip/rtcm/handler.Analyse",
+		"github.com/goblimey/go-ntrip/rtcm/handler.PrepareForDisplay",
+		"(*github.com/goblimey/go-ntrip/rtcm/handler.Message).String",
+	},
+}
 
 type Finding struct {
 	Prop  string
@@ -322,6 +332,7 @@ func runProperty(eng *Engine, prop, tier string, opts solveOpts, evidence, repla
 		}
 	}
 	exit := 0
+	os.RemoveAll(filepath.Join(replayDir, prop))
 	os.MkdirAll(filepath.Join(replayDir, prop), 0o755)
 	var violationLines []string
 	nKnown := 0
